@@ -522,6 +522,44 @@ func (m *StateMachine) beginRoundLive(
 			return false
 		}
 
+	case tsi.StepPrevoteDelay:
+		// The round already holds a prevote majority without a majority for a single block.
+		// This is what handleProposalViewUpdate does when it discovers the same situation
+		// through a view update: consider the proposed blocks we know of,
+		// and the prevote delay timer runs (see startInitialTimer).
+		if okPHs := m.rejectMismatchedProposedHeaders(initVRV.ProposedHeaders, rlc); len(okPHs) > 0 {
+			req := tsi.ConsiderProposedBlocksRequest{
+				PHs:    okPHs,
+				Result: rlc.PrevoteHashCh,
+			}
+			req.MarkReasonNewHashes(rlc)
+			req.Reason.MajorityVotingPowerPresent = true
+			if !gchan.SendC(
+				ctx, m.log,
+				m.cm.ConsiderProposedBlocksRequests, req,
+				"making consider proposed blocks request from initial state with majority prevotes present",
+			) {
+				// Context cancelled and logged. Quit.
+				return false
+			}
+		}
+
+	case tsi.StepPrecommitDelay:
+		// The round already holds a precommit majority without a majority for a single block.
+		// As on the view update path, we still submit our own precommit decision,
+		// and the precommit delay timer runs (see startInitialTimer).
+		if !gchan.SendC(
+			ctx, m.log,
+			m.cm.DecidePrecommitRequests, tsi.DecidePrecommitRequest{
+				VS:     initVRV.VoteSummary.Clone(),
+				Result: rlc.PrecommitHashCh,
+			},
+			"making decide precommit request from initial state with majority precommits present",
+		) {
+			// Context cancelled and logged. Quit.
+			return false
+		}
+
 	case tsi.StepCommitWait:
 		committingHash := initVRV.VoteSummary.MostVotedPrecommitHash
 		if committingHash == "" {
@@ -559,6 +597,10 @@ func (m *StateMachine) startInitialTimer(ctx context.Context, rlc *tsi.RoundLife
 		rlc.StepTimer, rlc.CancelTimer = m.rt.ProposalTimer(ctx, rlc.H, rlc.R)
 	case tsi.StepAwaitingPrevotes, tsi.StepAwaitingPrecommits:
 		// No timer needed in these starting steps.
+	case tsi.StepPrevoteDelay:
+		rlc.StepTimer, rlc.CancelTimer = m.rt.PrevoteDelayTimer(ctx, rlc.H, rlc.R)
+	case tsi.StepPrecommitDelay:
+		rlc.StepTimer, rlc.CancelTimer = m.rt.PrecommitDelayTimer(ctx, rlc.H, rlc.R)
 	case tsi.StepCommitWait:
 		rlc.StepTimer, rlc.CancelTimer = m.rt.CommitWaitTimer(ctx, rlc.H, rlc.R)
 	default:
